@@ -52,9 +52,38 @@ Proof. vm_compute. reflexivity. Qed.
 Lemma src_loop_bound_is_n_pixels : src_loop_bound = BoundNPixels.
 Proof. reflexivity. Qed.
 
-(* the reader never labels a value with a unit of another dimension than the writer's *)
-Lemma reader_unit_dimension : reader_units_ok = true.
+(* ---- reader units.  KNOWN FINDING (known_findings.txt, keys reader-unit-dimension:samp.N.alatt and
+   reader-unit-dimension:dnd.pr.alatt): the two lattice-parameter fields are written in angstrom and labelled
+   1/angstrom by the reader.  The full statement is therefore proved UNDER THE EXCLUSION of exactly these two
+   (class, field) pairs, and the refutation for them is a separate lemma that must hold on this tree. ---- *)
+Definition known_alatt : list (string * string) := [("line_proj", "alatt"); ("IX_sample", "alatt")].
+Definition is_known (c f : string) : bool :=
+  existsb (fun k => String.eqb (fst k) c && String.eqb (snd k) f) known_alatt.
+Definition reader_unit (c f : string) : option string :=
+  match find (fun t => String.eqb (fst (fst t)) c && String.eqb (snd (fst t)) f) reader_units with
+  | Some t => Some (snd t)
+  | None => None
+  end.
+(* every field the reader labels, other than the two known ones, gets a unit of the writer's dimension *)
+Definition reader_units_ok_excl : bool :=
+  forallb (fun t => is_known (fst (fst t)) (snd (fst t))
+                    || match writer_unit (fst (fst t)) (snd (fst t)) with
+                       | Some uw => same_dim uw (snd t)
+                       | None => false
+                       end) reader_units.
+
+Lemma reader_unit_dimension_excl : reader_units_ok_excl = true.
 Proof. vm_compute. reflexivity. Qed.
+
+(* the known finding, exactly as recorded: written in angstrom, labelled 1/angstrom, by both parsers; each of the
+   two fields is labelled once; hence the unrestricted statement is false on this tree.  If either side changes
+   in ANY way (including an upstream repair) this lemma breaks and the change has to be looked at. *)
+Lemma alatt_unit_refuted :
+  map (fun k => (writer_unit (fst k) (snd k), reader_unit (fst k) (snd k))) known_alatt
+  = [(Some "angstrom", Some "1/angstrom"); (Some "angstrom", Some "1/angstrom")]
+  /\ length (filter (fun t => is_known (fst (fst t)) (snd (fst t))) reader_units) = 2%nat
+  /\ reader_units_ok = false.
+Proof. vm_compute. repeat split; reflexivity. Qed.
 
 Local Open Scope N_scope.
 Lemma tie_decoded_content_is_supplied : forall e ev title cs chunk,
